@@ -163,6 +163,7 @@ func runEpisode(cfg epCfg) (ep *epResult) {
 		synctest.Test(txT, func(t *testing.T) {
 			s = verifsim.New(cfg.seed, sp.Strat)
 			s.FS = verifsim.NewFS()
+			s.FS.OnOp = trackOps
 			s.Crash = nil
 			if cfg.crash != nil {
 				c := *cfg.crash
